@@ -7,6 +7,7 @@ import vf, ringlib
 # which switches describe the code in /repo (set to True once the corresponding fix: commit is in)
 CODE_FIXPRED = True
 CODE_FIXLEAVE = True
+CODE_FIXWRAP = True
 
 
 def engine(ck, pid, kinds, n_quick=40, n_thorough=400, gen_kw=None, mc=True):
@@ -19,7 +20,7 @@ def engine(ck, pid, kinds, n_quick=40, n_thorough=400, gen_kw=None, mc=True):
     if mc:
         # (A) the design as implemented: all invariants on every reachable state of the small instances
         small = dict(maxops=1) if not ck.thorough else dict(maxops=2)
-        r = ck.tlc("MC_ChordKV", ringlib.mc_cfg(CODE_FIXPRED, CODE_FIXLEAVE, **small), allow_error=True, timeout=1500,
+        r = ck.tlc("MC_ChordKV", ringlib.mc_cfg(CODE_FIXPRED, CODE_FIXLEAVE, CODE_FIXWRAP, **small), allow_error=True, timeout=1500,
                    workers=min(vf.NCPU, 12))
         if r.error:
             # a design-level counterexample is only a lead: replay it on the real code
@@ -31,7 +32,7 @@ def engine(ck, pid, kinds, n_quick=40, n_thorough=400, gen_kw=None, mc=True):
         for fp, fl, invs in [(False, True, "InvNoBad"), (False, True, "InvPlacement InvReachable"), (True, False, "InvPlacement InvReachable")]:
             if (fp, fl) == (CODE_FIXPRED, CODE_FIXLEAVE):
                 continue
-            r = ck.tlc("MC_ChordKV", ringlib.mc_cfg(fp, fl, invs=invs, maxops=1), allow_error=True, timeout=900,
+            r = ck.tlc("MC_ChordKV", ringlib.mc_cfg(fp, fl, CODE_FIXWRAP, invs=invs, maxops=1), allow_error=True, timeout=900,
                        workers=min(vf.NCPU, 12), count=False)
             if r.error and r.trace_json:
                 sc = ringlib.cex_to_scenario(ringlib.cex_states(r.trace_json), "variant-cex-%s-%s" % (r.error["name"], "fp" if not fp else "fl"))
@@ -57,7 +58,7 @@ def _judge(ck, pid, kinds, binary, scenarios, origin, base=0):
     tr = ringlib.translate(ev, scenarios)
     if tr.issues:
         raise vf.Infra("; ".join(tr.issues[:3]))
-    viol, div, quiet = ringlib.validate(ck, tr, fixpred=CODE_FIXPRED, fixleave=CODE_FIXLEAVE)
+    viol, div, quiet = ringlib.validate(ck, tr, fixpred=CODE_FIXPRED, fixleave=CODE_FIXLEAVE, fixwrap=CODE_FIXWRAP)
     fnd = ringlib.findings_from(tr, viol, div, quiet, scenarios)
     hits = 0
     nontriv = {}
